@@ -165,13 +165,13 @@ class BIFReader(object):
         return probability_expr, cpd_expr
 
     def variable_block(self):
-        start = re.finditer("variable", self.network)
+        start = re.finditer(r"\bvariable\b", self.network)
         for index in start:
             end = self.network.find("}\n", index.start())
             yield self.network[index.start() : end]
 
     def probability_block(self):
-        start = re.finditer("probability", self.network)
+        start = re.finditer(r"\bprobability\b", self.network)
         for index in start:
             end = self.network.find("}\n", index.start())
             yield self.network[index.start() : end]
